@@ -103,6 +103,15 @@ def case_blur(ctx, rng, wd, unequal, big=False):
     # the box (lengths and origin) may change from frame to frame (NPT runs, deformation): every frame has its own grid
     vary = T > 1 and rng.random() < 0.5
     cells = [cell] + [gc.make_cell(rng, d, ckind, lmin=3.0, lmax=9.0) if vary else cell for _ in range(T - 1)]
+    if vary and rng.random() < 0.5:
+        # the SAME cell (lengths and tilt) translated / re-centred between frames (change_box, fix recenter, concatenated runs):
+        # only the bounds move
+        cells = [cell]
+        for _t in range(T - 1):
+            c_ = dict(cell)
+            c_["origin"] = cell["origin"] + rng.uniform(-4, 4, size=d)
+            cells.append(c_)
+        ctx.count("same_cell_translated_between_frames")
     if ckind != "ortho":
         ctx.count("triclinic_blur_cases")
     snaps = gc.snapshots_from([gc.snapshot_from(cells[t], rng.random((N, d)), np.ones(N, dtype=int), 100 * t) for t in range(T)])
@@ -223,6 +232,13 @@ def case_time(ctx, rng, exact, long=False):
     cplx = rng.random() < 0.4
     if cplx:
         A = A + 1j * rng.normal(size=(T, N))
+    outlier = None
+    if not cplx and T >= 5 and rng.random() < 0.2:
+        # one isolated value many orders of magnitude above the rest (an ill-defined order parameter in one frame): windows that do not
+        # contain that frame are defined by the other frames alone
+        outlier = (int(rng.integers(0, T - 2)), int(rng.integers(0, N)))
+        A[outlier] = float(rng.choice([3e17, -7e15, np.inf]))
+        ctx.count("series_with_an_isolated_outlier")
     snaps = Snapshots(nsnapshots=T, snapshots=[
         SingleSnapshot(timestep=t0 + step * t, nparticle=N, particle_type=np.ones(N, dtype=int), positions=np.zeros((N, 2)),
                        boxlength=np.ones(2), boxbounds=np.zeros((2, 2)), realbounds=None, hmatrix=np.eye(2)) for t in range(T)])
@@ -251,8 +267,23 @@ def case_time(ctx, rng, exact, long=False):
     if not ctx.check("window_length", rows in (T - wexp, T - wexp + 1) and vals.shape[1:] == (N,) and len(mids) == rows, key + "/window_length",
                      lambda: f"{rows} windows returned for T={T}: window of {T - rows} (or {T - rows + 1}) frames instead of floor(period/interval)={wexp}", info):
         return
-    exp = np.array([A[n:n + wexp].mean(axis=0) for n in range(rows)])
-    ctx.close("window_values", vals, exp, key + "/values", rtol=1e-10, atol=1e-12, what="window means", data=info)
+    with np.errstate(all="ignore"):
+        exp = np.array([A[n:n + wexp].mean(axis=0) for n in range(rows)])
+    if outlier is None:
+        ctx.close("window_values", vals, exp, key + "/values", rtol=1e-10, atol=1e-12, what="window means", data=info)
+    else:
+        # window by window, each on its own scale: the outlier may only show in the windows that contain its frame
+        t_o, i_o = outlier
+        clean = np.array([not (n <= t_o < n + wexp) for n in range(rows)])
+        ok_clean = bool(np.all(np.abs(vals[clean] - exp[clean]) <= 1e-10 * np.maximum(1.0, np.abs(exp[clean])))) if clean.any() else True
+        col = np.ones(N, dtype=bool)
+        col[i_o] = False
+        ok_other = bool(np.all(np.abs(vals[:, col] - exp[:, col]) <= 1e-10 * np.maximum(1.0, np.abs(exp[:, col])))) if col.any() else True
+        hit = vals[~clean, i_o]
+        ok_hit = bool(np.all((hit == exp[~clean, i_o]) | (np.abs(hit - exp[~clean, i_o]) <= 1e-10 * np.abs(exp[~clean, i_o]))))
+        ctx.check("window_values", ok_clean and ok_other and ok_hit, key + "/values/outlier",
+                  lambda: f"series with one outlier at frame {t_o}, particle {i_o}: windows without that frame correct={ok_clean}, other particles correct={ok_other}, "
+                          f"windows with it correct={ok_hit}", info)
     n = np.arange(rows)
     if wexp % 2:
         good = np.array_equal(mids, n + (wexp - 1) // 2)
